@@ -287,3 +287,100 @@ func TestVerif_C13_IdLengthSweep(t *testing.T) {
 	}
 	rec.Sample("sweep", map[string]interface{}{"id_lengths": "0..8200", "px": stats.Hex(px)})
 }
+
+// Messages whose digest e = SM3(ZA||M) is >= n as an integer: about 2^-32 of all messages, not constructible (e is a hash
+// output), found once by brute force with the reference SM3 (tools/digestsearch) and kept as a corpus. Every other message has
+// e < n, so anything the id/message-level wrappers do with "e mod n" is invisible without them. Each corpus entry is re-validated
+// with the reference first.
+func TestVerif_C13_LargeDigestCorpus(t *testing.T) {
+	rec := stats.Get("C13", "large-digest-corpus")
+	rec.Rule("corpus vectors/sm2_large_digest.json (key, id, message) with SM3(ZA||M) >= n (searched with the reference SM3, re-validated here) x rapid-drawn nonce streams: Sign(id,..,M) and SignZa(ZA,M) must equal the reference signature of the 32-byte digest e (which the standard reduces only inside r = (e+x1) mod n) and SignHashed on e; Verify/VerifyZa accept it and reject it with a changed message. Non-trivial: every case (e >= n); distinct by (vector, stream).")
+	t.Cleanup(stats.FlushAll)
+	b, err := os.ReadFile(filepath.Join(os.Getenv("VERIF_DIR"), "vectors", "sm2_large_digest.json"))
+	if err != nil {
+		rec.Skipped("vectors/sm2_large_digest.json not readable: " + err.Error())
+		return
+	}
+	var f struct {
+		Vectors []struct{ Priv, Px, Py, ID, Msg, E string }
+	}
+	if err := json.Unmarshal(b, &f); err != nil {
+		t.Fatal(err)
+	}
+	type vec struct{ d, px, py, id, msg, za, e []byte }
+	var vs []vec
+	for _, v := range f.Vectors {
+		h := func(s string) []byte { x, _ := hex.DecodeString(s); return x }
+		c := vec{d: h(v.Priv), px: h(v.Px), py: h(v.Py), id: h(v.ID), msg: h(v.Msg)}
+		gx, gy, _ := sm2gen.Pub(new(big.Int).SetBytes(c.d))
+		za, ok := sm2ref.ZA(c.id, c.px, c.py)
+		if !ok || !bytes.Equal(gx, c.px) || !bytes.Equal(gy, c.py) {
+			continue
+		}
+		c.za, c.e = za, sm2ref.E(za, c.msg)
+		if new(big.Int).SetBytes(c.e).Cmp(gen.N) < 0 {
+			continue // not a large digest after all: dropped
+		}
+		vs = append(vs, c)
+	}
+	if len(vs) == 0 {
+		rec.Skipped("no valid large-digest vector in the corpus")
+		return
+	}
+	rapid.Check(t, func(t *rapid.T) {
+		c := vs[gen.Uniform(t, "vector", 0, len(vs)-1)]
+		r := gen.Rand(t, "seed")
+		stream := gen.RandBytes(r, 128)
+		stream[0] &= 0x7f
+		rec.Case(stats.Hash(c.msg, stream), true, "large-digest")
+		if rec.WantSample("large-digest") {
+			rec.Sample("large-digest", map[string]interface{}{"id": stats.Hex(c.id), "msg": stats.Hex(c.msg), "e": stats.Hex(c.e)})
+		}
+		wr, ws, _, _, werr := sm2ref.Sign(new(big.Int).SetBytes(c.d), c.e, stream)
+		if werr != nil {
+			return // stream exhausted by rejected candidates (practically never)
+		}
+		var r0, s0, r1, s1, r2, s2 []byte
+		var e0, e1, e2 error
+		if p := vt.Catch(func() {
+			r0, s0, e0 = sm2.SignHashed(newStream(stream), c.d, c.e)
+			r1, s1, e1 = sm2.SignZa(newStream(stream), c.d, c.za, c.msg)
+			r2, s2, e2 = sm2.Sign(c.id, c.px, c.py, newStream(stream), c.d, c.msg)
+		}); p != nil {
+			vt.Fail(t, rec, "C13:wrappers:panic", "signing a message with digest >= n panicked: %v", p)
+			return
+		}
+		if e0 != nil || e1 != nil || e2 != nil {
+			vt.Fail(t, rec, "C13:wrappers:error", "signing a message with digest >= n failed: %v %v %v", e0, e1, e2)
+			return
+		}
+		want := fmt.Sprintf("%x|%x", gen.Pad32(wr), gen.Pad32(ws))
+		if got := fmt.Sprintf("%x|%x", r0, s0); got != want {
+			vt.Fail(t, rec, "C13:large-digest:signhashed", "SignHashed on a digest >= n differs from the reference\ne=%x\n got %s\nwant %s", c.e, got, want)
+			return
+		}
+		if got := fmt.Sprintf("%x|%x", r1, s1); got != want {
+			vt.Fail(t, rec, "C13:wrappers:signza", "SignZa(za,msg) differs from the signature of e = SM3(za||msg) when e >= n\nmsg=%x e=%x\n got %s\nwant %s", c.msg, c.e, got, want)
+			return
+		}
+		if got := fmt.Sprintf("%x|%x", r2, s2); got != want {
+			vt.Fail(t, rec, "C13:wrappers:sign", "Sign(id,..,msg) differs from the signature of e = SM3(ZA||msg) when e >= n\nid=%x msg=%x e=%x\n got %s\nwant %s", c.id, c.msg, c.e, got, want)
+			return
+		}
+		msg2 := append(append([]byte(nil), c.msg...), 0)
+		var vh, vz, vf, bz, bf bool
+		if p := vt.Catch(func() {
+			vh, _ = sm2.VerifyHashed(c.px, c.py, c.e, r0, s0)
+			vz, _ = sm2.VerifyZa(c.px, c.py, c.za, c.msg, r0, s0)
+			vf, _ = sm2.Verify(c.id, c.px, c.py, c.msg, r0, s0)
+			bz, _ = sm2.VerifyZa(c.px, c.py, c.za, msg2, r0, s0)
+			bf, _ = sm2.Verify(c.id, c.px, c.py, msg2, r0, s0)
+		}); p != nil {
+			vt.Fail(t, rec, "C13:wrappers:panic", "verification panicked: %v", p)
+			return
+		}
+		if !vh || !vz || !vf || bz || bf {
+			vt.Fail(t, rec, "C13:wrappers:verify", "message with digest >= n: VerifyHashed(e)=%v VerifyZa=%v Verify=%v (want true); with a changed message VerifyZa=%v Verify=%v (want false)\nmsg=%x e=%x", vh, vz, vf, bz, bf, c.msg, c.e)
+		}
+	})
+}
